@@ -174,6 +174,8 @@ def cases():
         ("assignment-value-wrong-type-argument", "float zf = 0.5f; takesInt(zf = 1.5f);", "int zi = 1; takesInt(zi = 2);"),
         ("assignment-value-long-into-int", "long zl = 1L; int zx = (zl = 5); echo(zx);", "long zl = 1L; long zy = (zl = 5); echo(zy);"),
         ("element-assignment-value-as-int", "int[] za = {1, 2}; int zx = (za[0] = 5); echo(zx);", "int[] za = {1, 2}; int[] zc = (za[0] = 5); echo(zc[0]);"),
+        ("final-array-element-assigned", "final int[] zq = {1, 2}; zq[0] = 5; echo(zq[0]);", "int[] zq = {1, 2}; zq[0] = 5; echo(zq[0]);"),
+        ("final-array-element-assigned-nested", "final int[] zq = {1, 2}; echo((zq[1] = 7)[1]);", "int[] zq = {1, 2}; echo((zq[1] = 7)[1]);"),
         ("null-array-argument", "echo(takesArr(null));", "int[] za = {1}; echo(takesArr(za));"),
         ("null-array-argument-method", "Vm vm = new Vm(); echo(vm.arr(null));", "Vm vm = new Vm(); int[] za = {1}; echo(vm.arr(za));"),
         ("null-array-assign", "int[] za = {1}; za = null;", "int[] za = {1}; za = {2};"),
@@ -278,6 +280,10 @@ def cases():
             "class RH { public int ff = 1; public constructor() -> RH = default; public function set() -> void { ff = 2; } }"),
            ("final-field-incremented", "class RH { public final int ff = 1; public constructor() -> RH = default; public function set() -> void { ff++; } }",
             "class RH { public int ff = 1; public constructor() -> RH = default; public function set() -> void { ff++; } }"),
+           ("final-array-field-element-assigned-in-method", "class RH { public final int[] fa = {1, 2}; public constructor() -> RH = default; public function set() -> void { fa[0] = 2; } }",
+            "class RH { public int[] fa = {1, 2}; public constructor() -> RH = default; public function set() -> void { fa[0] = 2; } }"),
+           ("final-array-field-element-after-assignment-in-constructor", "class RH { public final int[] fa; public constructor() -> RH { fa = {1, 2}; fa[0] = 3; return this; } }",
+            "class RH { public final int[] fa; public constructor() -> RH { fa = {3, 2}; return this; } }"),
            ("final-field-assigned-from-outside", "class RH { public final int ff = 1; public constructor() -> RH = default; }\nfunction poke() -> void { RH r = new RH(); r.ff = 3; }",
             "class RH { public int ff = 1; public constructor() -> RH = default; }\nfunction poke() -> void { RH r = new RH(); r.ff = 3; }"),
            ("final-field-twice-in-constructor", "class RH { public final int ff; public constructor() -> RH { this.ff = 1; this.ff = 2; return this; } }",
